@@ -7,11 +7,22 @@ package control
 //                                     builders: r = NewRoutingMatcherBuilder + BuildUserspace,
 //                                     q = dns.NewRequestMatcherBuilder + Build, s = dns.NewResponseMatcherBuilder + Build
 //                                     answer: "ok sets=<n>" (r) | "ok" (q, s) | "err:oversize" | "err:unknownFunction" | …
-//   n <textHex>                       whole pipeline Parse → config.New → optimizers → matcher builders
-//                                     (traffic + DNS) under recover; answer "done" (anything else = panic)
+//   n <textHex>                       whole pipeline Parse → config.New → optimizers (alias, geodata .dat reader over a
+//                                     temp dir, merge/sort, dedup) → matcher builders (traffic + DNS);
+//                                     answer "done" (anything else = panic)
+//
+// The z and n ops are evaluated in a CHILD process (the test binary re-executed): several stages
+// spawn goroutines (DatReaderOptimizer workers, parallel LPM-trie builds) whose panics no recover
+// in the harness could catch; a child that dies marks the op it was working on as `crash:…`.
 
 import (
+	"bufio"
+	"bytes"
+	"encoding/hex"
 	"fmt"
+	"os"
+	"os/exec"
+	"path/filepath"
 	"strings"
 	"testing"
 
@@ -21,7 +32,9 @@ import (
 	"github.com/daeuniverse/dae/component/routing"
 	"github.com/daeuniverse/dae/config"
 	"github.com/daeuniverse/dae/pkg/config_parser"
+	"github.com/daeuniverse/dae/pkg/geodata"
 	"github.com/sirupsen/logrus"
+	"google.golang.org/protobuf/proto"
 )
 
 func c17RulesOf(ss []*config_parser.Section) (rules []*config_parser.RoutingRule) {
@@ -241,10 +254,17 @@ var c17PipelineFixed = []string{
 	"global{} routing{} dns{ upstream{ 'noTag' } }", "global{} routing{} dns{ upstream{ g: '::::' } }", "global{} routing{} dns{ routing{ request{ fallback: must_asis } } }",
 	"global{} routing{} dns{ routing{ request{ qtype(zzz) -> asis } } }", "global{} routing{} dns{ routing{ response{ upstream(nosuch) -> accept } } }",
 	"global{} routing{} dns{ routing{ request{ fallback: f(x) && g(y) } } }", "global{} routing{} group{ g { policy: fixed(99) filter: name(x) [add_latency: zz] } }",
-	"global{} routing{ domain(full: a) -> x }", "global{} routing{ domain(nokey: a) -> direct }", "global{} routing{ a() -> b }",
+	"global{} routing{ domain(full: a) -> x }", "global{} routing{ domain(ext: foo) -> direct }", "global{} routing{ dip(ext: foo) -> direct }", "global{} routing{ domain(ext: '') -> direct }",
+	"global{} routing{ domain(ext: 'custom.dat:cn') -> direct }", "global{} routing{ domain(geosite: cn) && dip(geoip: private) -> direct }", "global{} routing{} dns{ routing{ request{ qname(ext: foo) -> asis } } }",
+	"global{} routing{} dns{ routing{ response{ ip(ext: foo) -> accept } } }", "global{} routing{ dport(ext: 'a:b') -> direct }", "global{} routing{ domain(geosite: badre) -> direct }", "global{} routing{ domain(nokey: a) -> direct }", "global{} routing{ a() -> b }",
 }
 
-func c17Pipeline(log *logrus.Logger, stats *VStats, in string) string {
+// c17Counters collects the stage counters of one op (the child process reports them to the parent)
+type c17Counters struct{ names []string }
+
+func (c *c17Counters) Inc(k string) { c.names = append(c.names, k) }
+
+func c17Pipeline(log *logrus.Logger, stats *c17Counters, finder *assets.LocationFinder, in string) string {
 	return VRecover(func() string {
 		ss, err := config_parser.Parse(in)
 		if err != nil {
@@ -256,7 +276,6 @@ func c17Pipeline(log *logrus.Logger, stats *VStats, in string) string {
 			return "done"
 		}
 		stats.Inc("pipeline.typed")
-		finder := assets.NewLocationFinder(nil)
 		rules, err := routing.ApplyRulesOptimizers(conf.Routing.Rules,
 			&routing.AliasOptimizer{},
 			&routing.DatReaderOptimizer{Logger: log, LocationFinder: finder},
@@ -310,11 +329,23 @@ func (g *c17ZGen) pipelineConfig() string {
 		b.WriteString("}\n")
 	}
 	b.WriteString("routing {\n")
+	// pool entries before "|" are well-formed, those after it are not (taken with probability 4%)
 	vals := func(pool ...string) string {
+		cut := len(pool)
+		for i, p := range pool {
+			if p == "|" {
+				cut = i
+			}
+		}
 		n := 1 + g.r.Intn(3)
 		ps := make([]string, n)
 		for i := range ps {
-			ps[i] = pool[g.r.Intn(len(pool))]
+			if cut+1 < len(pool) && g.r.Chance(0.04) {
+				ps[i] = pool[cut+1+g.r.Intn(len(pool)-cut-1)]
+				g.stats.Inc("pipeline.value.malformed")
+			} else {
+				ps[i] = pool[g.r.Intn(cut)]
+			}
 		}
 		return strings.Join(ps, ", ")
 	}
@@ -325,29 +356,34 @@ func (g *c17ZGen) pipelineConfig() string {
 		}
 		switch g.r.Intn(12) {
 		case 0:
-			return neg + "domain(" + vals("suffix: example.com", "full: a.b", "keyword: goo", "regex: '^a.*$'", "x.com", "domain: y.org", "contains: z", "geosite: cn", "regex: '(['", "suffix: 'É.com'", "nokey: v") + ")"
+			return neg + "domain(" + vals("suffix: example.com", "full: a.b", "keyword: goo", "regex: '^a.*$'", "x.com", "domain: y.org", "contains: z", "geosite: cn", "geosite: 'cn@ads'", "ext: 'custom.dat:cn'", "ext: 'custom:cn@ads'", "geosite: empty",
+				"|", "regex: '(['", "suffix: 'É.com'", "nokey: v", "geosite: nosuch", "geosite: badre", "ext: foo", "ext: 'missing.dat:cn'", "ext: 'empty.dat:cn'", "ext: ':'", "ext: ''", "ext: 'custom.dat:'", "ext: 'customip.dat:cn'") + ")"
 		case 1:
-			return neg + "dip(" + vals("1.1.1.1", "10.0.0.0/8", "'::1'", "'2001:db8::/32'", "geoip: private", "300.1.1.1", "1.1.1.1/33", "x") + ")"
+			return neg + "dip(" + vals("1.1.1.1", "10.0.0.0/8", "'::1'", "'2001:db8::/32'", "geoip: private", "geoip: cn", "ext: 'customip.dat:cn'", "ext: 'customip:private'",
+				"|", "300.1.1.1", "1.1.1.1/33", "x", "geoip: inv", "geoip: badip", "geoip: nosuch", "ext: foo", "ext: 'custom.dat:cn'", "ext: 'missing:x'") + ")"
 		case 2:
-			return neg + "sip(" + vals("192.168.0.0/16", "10.1.2.3", "'fe80::/10'", "bad/ip") + ")"
+			return neg + "sip(" + vals("192.168.0.0/16", "10.1.2.3", "'fe80::/10'", "|", "bad/ip") + ")"
 		case 3:
-			return neg + "dport(" + vals("80", "443", "1000-2000", "0", "65535", "65536", "5-1", "a-b", "-1") + ")"
+			return neg + "dport(" + vals("80", "443", "1000-2000", "0", "65535", "|", "65536", "5-1", "a-b", "-1") + ")"
 		case 4:
-			return neg + "sport(" + vals("80", "1-65535", "x") + ")"
+			return neg + "sport(" + vals("80", "1-65535", "|", "x") + ")"
 		case 5:
-			return neg + "l4proto(" + vals("tcp", "udp", "icmp") + ")"
+			return neg + "l4proto(" + vals("tcp", "udp", "|", "icmp") + ")"
 		case 6:
-			return neg + "pname(" + vals("curl", "'a very long process name beyond sixteen'", "''", "'é'") + ")"
+			return neg + "pname(" + vals("curl", "'a very long process name beyond sixteen'", "sshd", "|", "''", "'é'") + ")"
 		case 7:
-			return neg + "mac(" + vals("'02:42:ac:11:00:02'", "'zz:zz'", "x") + ")"
+			return neg + "mac(" + vals("'02:42:ac:11:00:02'", "|", "'zz:zz'", "x") + ")"
 		case 8:
-			return neg + "ipversion(" + vals("4", "6", "5") + ")"
+			return neg + "ipversion(" + vals("4", "6", "|", "5") + ")"
 		case 9:
-			return neg + "dscp(" + vals("8", "0x2e", "64", "999", "x") + ")"
+			return neg + "dscp(" + vals("8", "0x2e", "|", "64", "999", "x") + ")"
 		case 10:
 			return neg + "ip(" + vals("1.1.1.1", "geoip: cn") + ")"
 		default:
-			return neg + g.pick("nosuch(x)", "qname(x)", "domain(k: v, k2: v2)", "port(80)")
+			if g.r.Chance(0.85) {
+				return neg + "dport(" + vals("80", "443") + ")"
+			}
+			return neg + g.pick("nosuch(x)", "qname(x)", "domain(k: v, k2: v2)", "port(80)", "dport(ext: 'a:b')", "pname(ext: x)", "sip(geoip: private)", "mac(geosite: cn)")
 		}
 	}
 	nr := g.r.Intn(8)
@@ -359,10 +395,14 @@ func (g *c17ZGen) pipelineConfig() string {
 		for g.r.Chance(0.3) {
 			s += " && " + cond()
 		}
-		line(s + " -> " + g.pick("direct", "proxy", "block", "must_direct", "must_rules", "my_group", "proxy(mark: 0x1)", "direct(must)", "direct(mark: x)", "direct(nope: 1)", "direct(zzz)", "nosuch", "!direct(x)"))
+		out := g.pick("direct", "proxy", "block", "must_direct", "must_rules", "my_group", "proxy(mark: 0x1)", "direct(must)")
+		if g.r.Chance(0.02) {
+			out = g.pick("direct(mark: x)", "direct(nope: 1)", "direct(zzz)", "nosuch", "!direct(x)")
+		}
+		line(s + " -> " + out)
 	}
 	if g.r.Chance(0.7) {
-		line("fallback: " + g.pick("direct", "proxy", "must_direct", "my_group", "proxy(mark: 1)", "nosuch", "f(x) && g(y)", "'direct'"))
+		line("fallback: " + g.pick("direct", "proxy", "must_direct", "my_group", "proxy(mark: 1)", "'direct'", "direct", "proxy", g.pick("nosuch", "f(x) && g(y)", "direct")))
 	}
 	b.WriteString("}\n")
 	if g.r.Chance(0.6) {
@@ -383,7 +423,7 @@ func (g *c17ZGen) pipelineConfig() string {
 					nq = 400 + g.r.Intn(900)
 				}
 				for i := 0; i < nq; i++ {
-					line("    " + g.pick("qname(suffix: x.com)", "qname(geosite: cn)", "qtype(a, aaaa)", "qtype(zzz)", "!qname(full: a.b, keyword: c)", "qname(regex: '(')", "qname(x) && qtype(28)", "nosuch(x)", "qtype(65536)") + " -> " + g.pick("googledns", "alidns", "asis", "reject", "nosuch", "asis(must)", "googledns(mark: 1)"))
+					line("    " + g.pick("qname(suffix: x.com)", "qname(geosite: cn)", "qname(ext: foo)", "qname(ext: 'custom.dat:cn', geosite: nosuch)", "qtype(ext: 'a:b')", "qtype(a, aaaa)", "qtype(zzz)", "!qname(full: a.b, keyword: c)", "qname(regex: '(')", "qname(x) && qtype(28)", "nosuch(x)", "qtype(65536)") + " -> " + g.pick("googledns", "alidns", "asis", "reject", "nosuch", "asis(must)", "googledns(mark: 1)"))
 				}
 				line("    fallback: " + g.pick("asis", "googledns", "reject", "nosuch", "must_asis", "asis(mark: 1)"))
 				line("  }")
@@ -395,7 +435,7 @@ func (g *c17ZGen) pipelineConfig() string {
 					ns = 400 + g.r.Intn(900)
 				}
 				for i := 0; i < ns; i++ {
-					line("    " + g.pick("upstream(googledns)", "upstream(nosuch)", "upstream(k: googledns)", "ip(geoip: private)", "ip(1.1.1.1, 10.0.0.0/8)", "ip(x)", "qname(suffix: y.com)", "!qname(keyword: z) && upstream(alidns)", "qtype(a)") + " -> " + g.pick("accept", "reject", "googledns", "alidns", "nosuch", "accept(must)"))
+					line("    " + g.pick("upstream(googledns)", "upstream(nosuch)", "upstream(k: googledns)", "ip(geoip: private)", "ip(ext: 'customip.dat:cn')", "ip(ext: bar)", "qname(ext: foo)", "upstream(ext: 'a:b')", "ip(1.1.1.1, 10.0.0.0/8)", "ip(x)", "qname(suffix: y.com)", "!qname(keyword: z) && upstream(alidns)", "qtype(a)") + " -> " + g.pick("accept", "reject", "googledns", "alidns", "nosuch", "accept(must)"))
 				}
 				line("    fallback: " + g.pick("accept", "reject", "googledns", "nosuch"))
 				line("  }")
@@ -408,18 +448,158 @@ func (g *c17ZGen) pipelineConfig() string {
 	return b.String()
 }
 
+// ---------------------------------------------------------------- geodata files for the .dat reader stage
+
+func c17WriteGeodata(dir string) error {
+	ads := &geodata.Domain_Attribute{Key: "ads", TypedValue: &geodata.Domain_Attribute_BoolValue{BoolValue: true}}
+	site := &geodata.GeoSiteList{Entry: []*geodata.GeoSite{
+		{CountryCode: "CN", Domain: []*geodata.Domain{
+			{Type: geodata.Domain_Full, Value: "a.cn"}, {Type: geodata.Domain_RootDomain, Value: "b.cn"},
+			{Type: geodata.Domain_Plain, Value: "key", Attribute: []*geodata.Domain_Attribute{ads}}, {Type: geodata.Domain_Regex, Value: "^c[0-9]+\\.cn$"},
+		}},
+		{CountryCode: "EMPTY"},
+		{CountryCode: "BADRE", Domain: []*geodata.Domain{{Type: geodata.Domain_Regex, Value: "(["}}},
+	}}
+	ip := &geodata.GeoIPList{Entry: []*geodata.GeoIP{
+		{CountryCode: "PRIVATE", Cidr: []*geodata.CIDR{{Ip: []byte{10, 0, 0, 0}, Prefix: 8}, {Ip: []byte{0xfc, 0, 0, 0, 0, 0, 0, 0, 0, 0, 0, 0, 0, 0, 0, 0}, Prefix: 7}}},
+		{CountryCode: "CN", Cidr: []*geodata.CIDR{{Ip: []byte{1, 2, 3, 0}, Prefix: 24}}},
+		{CountryCode: "INV", InverseMatch: true, Cidr: []*geodata.CIDR{{Ip: []byte{1, 2, 3, 0}, Prefix: 24}}},
+		{CountryCode: "BADIP", Cidr: []*geodata.CIDR{{Ip: []byte{1, 2, 3}, Prefix: 24}}},
+	}}
+	for name, m := range map[string]proto.Message{"geosite.dat": site, "custom.dat": site, "geoip.dat": ip, "customip.dat": ip} {
+		b, err := proto.Marshal(m)
+		if err != nil {
+			return err
+		}
+		if err = os.WriteFile(filepath.Join(dir, name), b, 0o600); err != nil {
+			return err
+		}
+	}
+	return os.WriteFile(filepath.Join(dir, "empty.dat"), nil, 0o600)
+}
+
+// ---------------------------------------------------------------- child process: evaluates z / n ops
+
+func c17EvalOp(log *logrus.Logger, finder *assets.LocationFinder, op string, cnt *c17Counters) string {
+	w := strings.Fields(op)
+	unhex := func(h string) string {
+		b, _ := hex.DecodeString(h)
+		return string(b)
+	}
+	switch {
+	case len(w) == 4 && w[0] == "z":
+		return c17Compile(log, w[1], unhex(w[3]))
+	case len(w) == 2 && w[0] == "n":
+		return c17Pipeline(log, cnt, finder, unhex(w[1]))
+	case len(w) == 1 && w[0] == "n":
+		return c17Pipeline(log, cnt, finder, "")
+	}
+	return "bad-op"
+}
+
+func TestVerifC17Child(t *testing.T) {
+	in := os.Getenv("VERIF_C17_CHILD_IN")
+	if in == "" {
+		t.Skip("child mode only")
+	}
+	log := logrus.New()
+	log.SetLevel(logrus.PanicLevel)
+	finder := assets.NewLocationFinder([]string{os.Getenv("VERIF_C17_GEODIR")})
+	f, err := os.Open(in)
+	if err != nil {
+		t.Fatal(err)
+	}
+	defer f.Close()
+	out, err := os.OpenFile(os.Getenv("VERIF_C17_CHILD_OUT"), os.O_APPEND|os.O_CREATE|os.O_WRONLY, 0o600)
+	if err != nil {
+		t.Fatal(err)
+	}
+	defer out.Close()
+	sc := bufio.NewScanner(f)
+	sc.Buffer(make([]byte, 1<<20), 1<<28)
+	for sc.Scan() {
+		var cnt c17Counters
+		res := c17EvalOp(log, finder, sc.Text(), &cnt)
+		// one line per op, written before the next op starts: "<result>\t<counters>"
+		if _, err = out.WriteString(strings.ReplaceAll(res, "\n", "\\n") + "\t" + strings.Join(cnt.names, " ") + "\n"); err != nil {
+			t.Fatal(err)
+		}
+	}
+}
+
+// c17RunInChild evaluates the ops in child processes; an op during which the child died is answered
+// "crash:<first panic line>".
+func c17RunInChild(t *testing.T, ops []string, geodir string, stats *VStats, tag string) []string {
+	res := make([]string, 0, len(ops))
+	dir, err := os.MkdirTemp("", "c17child")
+	if err != nil {
+		t.Fatal(err)
+	}
+	defer os.RemoveAll(dir)
+	for start := 0; start < len(ops); {
+		inF, outF := filepath.Join(dir, "in"), filepath.Join(dir, "out")
+		_ = os.WriteFile(inF, []byte(strings.Join(ops[start:], "\n")+"\n"), 0o600)
+		_ = os.Remove(outF)
+		cmd := exec.Command(os.Args[0], "-test.run", "^TestVerifC17Child$", "-test.timeout", "2400s")
+		cmd.Env = append(os.Environ(), "VERIF_C17_CHILD_IN="+inF, "VERIF_C17_CHILD_OUT="+outF, "VERIF_C17_GEODIR="+geodir)
+		var stderr bytes.Buffer
+		cmd.Stdout, cmd.Stderr = &stderr, &stderr
+		runErr := cmd.Run()
+		stats.Inc("child.processes." + tag)
+		b, _ := os.ReadFile(outF)
+		lines := strings.Split(strings.TrimSuffix(string(b), "\n"), "\n")
+		if len(b) == 0 {
+			lines = nil
+		}
+		for _, l := range lines {
+			r, c, _ := strings.Cut(l, "\t")
+			res = append(res, r)
+			for _, k := range strings.Fields(c) {
+				stats.Inc(k)
+			}
+		}
+		start += len(lines)
+		if start >= len(ops) {
+			break
+		}
+		// the child died while evaluating ops[start]
+		msg := "child exited: " + fmt.Sprint(runErr)
+		for _, l := range strings.Split(stderr.String(), "\n") {
+			if strings.HasPrefix(l, "panic:") || strings.HasPrefix(l, "fatal error:") {
+				msg = l
+				break
+			}
+		}
+		res = append(res, "crash:goroutine:"+msg)
+		stats.Inc("child.DIED." + tag)
+		start++
+	}
+	return res
+}
+
 func TestVerifC17Compile(t *testing.T) {
+	if os.Getenv("VERIF_C17_CHILD_IN") != "" {
+		t.Skip("parent mode only")
+	}
 	shard, shards := VEnvInt("VERIF_SHARD", 0), VEnvInt("VERIF_SHARDS", 1)
 	r := NewVRand(VSeed()*104729 + 5 + uint64(shard))
 	stats := NewVStats()
 	name := fmt.Sprintf("c17z%d", shard)
 	st := VOpenStream(name)
 	defer func() { st.Close(); stats.Write(name) }()
-	log := logrus.New()
-	log.SetLevel(logrus.PanicLevel)
 	g := &c17ZGen{r: r, stats: stats}
 	st.Emit(c17ProbeClasses(t, stats), "classes ok")
 
+	geodir, err := os.MkdirTemp("", "c17geo")
+	if err != nil {
+		t.Fatal(err)
+	}
+	defer os.RemoveAll(geodir)
+	if err = c17WriteGeodata(geodir); err != nil {
+		t.Fatal(err)
+	}
+
+	var ops []string
 	nz := VEnvInt("VERIF_C17_COMPILE_N", 120)
 	if VThorough() {
 		nz = VEnvInt("VERIF_C17_COMPILE_N", 1600)
@@ -442,36 +622,21 @@ func TestVerifC17Compile(t *testing.T) {
 			target = 100 + g.r.Intn(800)
 		}
 		in := g.program(which, target)
-		out := c17Compile(log, which, in)
-		cls := out
-		if strings.HasPrefix(out, "ok") {
-			cls = "ok"
-		} else if strings.HasPrefix(out, "err:other") {
-			cls = "err:other"
-		}
-		stats.Inc("z." + which + ".result." + cls)
 		if i < 8 && shard == 0 && len(in) < 400 {
 			stats.Sample("compile " + which + ": " + in)
 		}
-		st.Emit(fmt.Sprintf("z %s %d %s", which, max, c17Hex(in)), out)
+		ops = append(ops, fmt.Sprintf("z %s %d %s", which, max, c17Hex(in)))
 	}
+	nzOps := len(ops)
 
 	np := VEnvInt("VERIF_C17_PIPELINE_N", 600)
 	if VThorough() {
 		np = VEnvInt("VERIF_C17_PIPELINE_N", 12000)
 	}
 	np /= shards
-	emitN := func(in string) {
-		out := c17Pipeline(log, stats, in)
-		if out != "done" {
-			stats.Inc("pipeline.CRASH")
-		}
-		stats.Inc("pipeline.inputs")
-		st.Emit("n "+c17Hex(in), out)
-	}
 	if shard == 0 {
 		for _, s := range c17PipelineFixed {
-			emitN(s)
+			ops = append(ops, "n "+c17Hex(s))
 		}
 	}
 	for i := 0; i < np; i++ {
@@ -490,6 +655,32 @@ func TestVerifC17Compile(t *testing.T) {
 		if i < 2 && shard == 0 {
 			stats.Sample("pipeline: " + in)
 		}
-		emitN(in)
+		ops = append(ops, "n "+c17Hex(in))
+	}
+
+	res := c17RunInChild(t, ops, geodir, stats, "all")
+	for i, op := range ops {
+		out := "crash:no-answer"
+		if i < len(res) {
+			out = res[i]
+		}
+		if i < nzOps {
+			which := strings.Fields(op)[1]
+			cls := out
+			if strings.HasPrefix(out, "ok") {
+				cls = "ok"
+			} else if strings.HasPrefix(out, "err:other") {
+				cls = "err:other"
+			} else if strings.HasPrefix(out, "crash") {
+				cls = "CRASH"
+			}
+			stats.Inc("z." + which + ".result." + cls)
+		} else {
+			stats.Inc("pipeline.inputs")
+			if out != "done" {
+				stats.Inc("pipeline.CRASH")
+			}
+		}
+		st.Emit(op, out)
 	}
 }
